@@ -9,8 +9,8 @@ from common import Case, INDS, NO_SCALAR, HAS_MULT, nper
 SPECIALS = [float("nan"), float("inf"), float("-inf"), 1.7976931348623157e308, -1.7976931348623157e308,
             5e-324, -5e-324, 0.0, -0.0, 2.2250738585072014e-308]
 
-SCALAR_STYLES = ["walk", "uniform", "ties", "mixed", "signed", "grid", "periodic", "tiny", "huge", "flatafter", "zeros", "segments"]
-POSITIVE_STYLES = ["walk", "uniform", "ties", "pgrid", "periodic", "tiny", "huge", "flatafter", "segments"]
+SCALAR_STYLES = ["walk", "uniform", "ties", "mixed", "signed", "grid", "periodic", "tiny", "huge", "flatafter", "zeros", "segments", "crash"]
+POSITIVE_STYLES = ["walk", "uniform", "ties", "pgrid", "periodic", "tiny", "huge", "flatafter", "segments", "crash"]
 
 
 def rand_price(r, lo=1e-3, hi=1e6, signed=False):
@@ -59,6 +59,14 @@ def _segment(r, n, style, p, positive, level):
         k = r.randint(0, max(1, n // 2))
         xs = [level * r.uniform(0.5, 1.5) for _ in range(k)]
         xs += [xs[-1] if xs else level] * (n - k)
+    elif style == "crash":
+        # a few very large prices, then a quiet, mostly monotone market at a level ~1e6 times smaller
+        k = r.randint(1, max(1, min(n // 3, p + 2)))
+        xs = [level * 1e6 * r.uniform(1, 2) for _ in range(k)]
+        x = level
+        for _ in range(n - k):
+            x = x + level * r.choice([1e-3, 1e-3, 2e-3, 0.0, -1e-4])
+            xs.append(x)
     elif style == "zeros":
         xs = [r.choice([0.0, 0.0, -0.0, level, level * 0.5]) for _ in range(n)]
     else:
